@@ -10,13 +10,13 @@ CONSTANTS
   SeekMax = 3
   Ops = FALSE
   Hints = {}
-  IterSingleLine = TRUE
+  IterSingleLine = FALSE
   Emit = TRUE
   Modes = {"shared", "byname"}
   ClampReadline = TRUE
   PadOdd = TRUE
   SeekFirst = TRUE
-  IterYieldsAll = FALSE
+  IterYieldsAll = TRUE
 SPECIFICATION Spec
 INVARIANT TypeOK
 INVARIANT IndexExact
